@@ -529,6 +529,26 @@ def helper_models():
                 yield f"H:value={'undefined' if value is UNDEF else json.dumps(value)}:default={json.dumps(default)}:comma={comma}", m
 
 
+def collect_macro_models():
+    """parts collected through the rally.collect *macro* at render time (spellings that the loader does not inline textually: no blanks
+    inside the braces, single quotes) with the helpers imported with and without context: a user-supplied track parameter must reach the
+    collected part exactly like the main file"""
+    for imp in ('{% import "rally.helpers" as rally %}', '{% import "rally.helpers" as rally with context %}'):
+        for call in ('{{rally.collect(parts="operations/*.json")}}', "{{ rally.collect(parts='operations/*.json') }}", '{{ rally.collect(parts="operations/*.json") }}'):
+            for supplied in (True, False):
+                idx = "custom-logs" if supplied else "logs"
+                raw = (imp + '\n{"version": 2, "description": "d", "indices": [{"name": "{{ idx_name | default(\'logs\') }}"}],\n'
+                       ' "operations": [ ' + call + ' ],\n'
+                       ' "challenges": [{"name": "main", "default": true, "schedule": [{"operation": "op-p", "clients": {{ p_clients | default(2) }}}]}]}')
+                part = '{"name": "op-p", "operation-type": "search", "index": "{{ idx_name | default(\'logs\') }}", "body": {"size": {{ p_size | default(7) }}}}'
+                exp = {"version": 2, "description": "d", "indices": [{"name": idx}],
+                       "operations": [{"name": "op-p", "operation-type": "search", "index": idx, "body": {"size": 7}}],
+                       "challenges": [{"name": "main", "default": True, "schedule": [{"operation": "op-p", "clients": 2}]}]}
+                m = {"_raw": raw, "_expect_model": exp, "_params": {"idx_name": "custom-logs"} if supplied else {}, "_files": {"operations/op-p.json": part}}
+                m.update(exp)
+                yield f"M:import={'with' if 'with context' in imp else 'without'}-context:call={call}:param-supplied={supplied}", m
+
+
 def corpora_models():
     docsets = [
         {"source-file": "docs.json.bz2", "document-count": 10, "compressed-bytes": 100, "uncompressed-bytes": 1000},
@@ -675,7 +695,7 @@ def run(tier, seed):
     valid = [(l, m, None) for l, m in task_models(tier)] + [(l, m, None) for l, m in parallel_models(tier)] + list(challenge_models()) + list(sequence_models()) + [
         (l, m, None) for l, m in corpora_models()
     ] + [(l, m, None) for l, m in file_models()]
-    helpers = [(l, m, None) for l, m in helper_models()]
+    helpers = [(l, m, None) for l, m in helper_models()] + [(l, m, None) for l, m in collect_macro_models()]
     invalid = list(invalid_models())
     jobs = [("valid", ch) for ch in par.chunks(valid, par.NPROC * 4)] + [("invalid", ch) for ch in par.chunks(invalid, par.NPROC)]
     jobs += [("raw", ch) for ch in par.chunks(helpers, 4)]
